@@ -230,8 +230,12 @@ def t2(model: Model, rep: Report):
 
 def _maybe_nonempty(ev: Evaluator, cond: Term, L: Term) -> bool:
     """Can the group over list L be non-empty on a path with condition cond?"""
-    nonempty = t_cmp(">", ("call", "len", (L,), ()), ZERO)
+    # lengths are integers: non-empty means len(L) = 1 + k with k >= 0; substitute and let the affine sign rules decide
+    ln = ("call", "len", (L,), ())
+    c = resolve_max(subst(devar(cond), {ln: t_add(ONE, K)}))
+    if c == FALSE:
+        return False
     try:
-        return satisfiable(t_and(devar(cond), nonempty), ev.enum_members)
+        return satisfiable(c, ev.enum_members)
     except Unsupported:
         return True
